@@ -1069,7 +1069,10 @@ class ArgumentParser(ParserDeprecations, ActionsContainer, ArgumentLinking, argp
 
         default_config_files = self._get_default_config_files()
         for key, default_config_file in default_config_files:
-            default_config_file_content = default_config_file.get_content()
+            try:
+                default_config_file_content = default_config_file.get_content()
+            except UnicodeDecodeError as ex:
+                raise argument_error(f'Problem in default config file "{default_config_file}": {ex}') from ex
             if not default_config_file_content.strip():
                 continue
             with change_to_path_dir(default_config_file), parser_context(parent_parser=self):
